@@ -18,6 +18,10 @@ type engineOpts struct {
 	bigTTL    float64
 	retryable bool
 	sendStall bool
+	// outOfRange: chance that the driver also hands out a response whose TTL lies outside the
+	// requested range (a driver bug or stale state): the run may fail or ignore it, the shape of a
+	// successful result must not suffer
+	outOfRange float64
 }
 
 func genEngineScenario(prop string, rng *rand.Rand, o engineOpts) *sim.Scenario {
@@ -63,6 +67,17 @@ func genEngineScenario(prop string, rng *rand.Rand, o engineOpts) *sim.Scenario 
 			s.Responses = append(s.Responses, resp)
 		}
 	}
+	if chance(rng, o.outOfRange) {
+		for n := between(rng, 1, 2); n > 0; n-- {
+			k++
+			t := pick(rng, c.MinTTL-1, c.MinTTL-1, c.MinTTL-2, c.MaxTTL+1, 0)
+			if t < 0 || t > 255 {
+				continue
+			}
+			s.Responses = append(s.Responses, sim.ScriptResp{TTL: t, Addr: fmt.Sprintf("10.250.%d.%d", k/250, 1+k%250), Dest: chance(rng, 0.6), AfterSend: 0,
+				RTTUs: int64(between(rng, 1, 90000)), DelayUs: int64(between(rng, 0, c.TimeoutMs*500))})
+		}
+	}
 	if o.retryable && chance(rng, 0.3) {
 		s.RetryableEvery = between(rng, 2, 5)
 	}
@@ -81,6 +96,9 @@ func handedFold(cs *sim.CallState) (map[int]*sim.ScriptResp, int) {
 	lowest := 0
 	for _, h := range cs.Driver.Handed {
 		r := &cs.C.Script.Responses[h.Resp]
+		if r.TTL < cs.C.MinTTL || r.TTL > cs.C.MaxTTL {
+			continue // outside the requested range: never part of a result
+		}
 		prev := hops[r.TTL]
 		if prev == nil || (!prev.Dest && r.Dest) {
 			hops[r.TTL] = r
